@@ -100,6 +100,13 @@ func c12Run(c *h.Ctx) {
 // length-form boundary (252/253, rarely 65535/65536): signers whose signature is shorter than
 // their estimate then make the final length field shrink to a shorter form.
 func c12Boundary(cs *pkt.Case, r *rand.Rand) {
+	if c12Signed(cs.Signer) && r.Intn(2) == 0 { // variable-length signatures (estimate 72/104, actual shorter)
+		if cs.Kind == "data" {
+			cs.Signer = []string{"ecc", "ecc384"}[r.Intn(2)]
+		} else {
+			cs.Signer = "eccint"
+		}
+	}
 	target := 249 + r.Intn(12)
 	if r.Intn(10) == 0 {
 		target = 65530 + r.Intn(14)
